@@ -12,7 +12,7 @@ pub struct PaySpec {
     pub seed: u64,
 }
 
-pub const PAY_CLASSES: u8 = 10;
+pub const PAY_CLASSES: u8 = 13;
 
 impl PaySpec {
     pub fn new(len: usize, class: u8, seed: u64) -> Self {
@@ -29,7 +29,10 @@ impl PaySpec {
             6 => "invalid-utf8",
             7 => "nul-crlf",
             8 => "chunk-framing",
-            _ => "tagged-random",
+            9 => "tagged-random",
+            10 => "zlib-stream",
+            11 => "gzip-member",
+            _ => "container-magic",
         }
     }
     /// Generate the bytes. The first 8 bytes (when len >= 8) of most classes carry the seed so
@@ -99,6 +102,88 @@ impl PaySpec {
                             v.push(*b)
                         }
                     }
+                }
+            }
+            10 | 11 => {
+                // the payload is itself a complete, valid zlib stream / gzip member (a client that
+                // compresses its own data): deflate "stored" blocks around seeded random content
+                let gz = self.class % PAY_CLASSES == 11;
+                let (head, tail) = if gz { (10usize, 8usize) } else { (2, 4) };
+                if n < head + tail + 5 {
+                    let stub: &[u8] = if gz { &[0x1f, 0x8b, 8, 0, 0, 0, 0, 0, 0, 255, 1, 0, 0, 0xff, 0xff, 0, 0, 0, 0, 0, 0, 0, 0] } else { &[0x78, 0x01, 1, 0, 0, 0xff, 0xff, 0, 0, 0, 1] };
+                    v.extend_from_slice(&stub[..n.min(stub.len())]);
+                    v.resize(n, 0);
+                } else {
+                    let mut k = 1usize;
+                    while n - head - tail < 5 * k || n - head - tail - 5 * k > 65535 * k {
+                        k += 1;
+                    }
+                    let d = n - head - tail - 5 * k;
+                    let mut data = vec![0u8; d];
+                    let mut i = 0;
+                    while i + 8 <= d {
+                        data[i..i + 8].copy_from_slice(&rng.next_u64().to_le_bytes());
+                        i += 8;
+                    }
+                    while i < d {
+                        data[i] = rng.next_u64() as u8;
+                        i += 1;
+                    }
+                    if d >= 8 {
+                        data[..8].copy_from_slice(&self.seed.to_le_bytes());
+                    }
+                    if gz {
+                        v.extend_from_slice(&[0x1f, 0x8b, 8, 0, 0, 0, 0, 0, 0, 255]);
+                    } else {
+                        v.extend_from_slice(&[0x78, 0x01]);
+                    }
+                    let mut off = 0usize;
+                    for b in 0..k {
+                        let left = d - off;
+                        let take = if b + 1 == k { left } else { left.min(65535).min(left.saturating_sub(k - b - 1).max(0)) };
+                        let take = take.min(65535);
+                        v.push(if b + 1 == k { 1 } else { 0 });
+                        v.extend_from_slice(&(take as u16).to_le_bytes());
+                        v.extend_from_slice(&(!(take as u16)).to_le_bytes());
+                        v.extend_from_slice(&data[off..off + take]);
+                        off += take;
+                    }
+                    debug_assert_eq!(off, d);
+                    if gz {
+                        let mut table = [0u32; 256];
+                        for (i, t) in table.iter_mut().enumerate() {
+                            let mut c = i as u32;
+                            for _ in 0..8 {
+                                c = if c & 1 != 0 { 0xEDB8_8320 ^ (c >> 1) } else { c >> 1 };
+                            }
+                            *t = c;
+                        }
+                        let mut crc = 0xFFFF_FFFFu32;
+                        for b in &data {
+                            crc = table[((crc ^ *b as u32) & 0xff) as usize] ^ (crc >> 8);
+                        }
+                        v.extend_from_slice(&(crc ^ 0xFFFF_FFFF).to_le_bytes());
+                        v.extend_from_slice(&(d as u32).to_le_bytes());
+                    } else {
+                        let (mut a, mut b2) = (1u32, 0u32);
+                        for chunk in data.chunks(5552) {
+                            for x in chunk {
+                                a += *x as u32;
+                                b2 += a;
+                            }
+                            a %= 65521;
+                            b2 %= 65521;
+                        }
+                        v.extend_from_slice(&((b2 << 16) | a).to_be_bytes());
+                    }
+                }
+            }
+            12 => {
+                let magics: [&[u8]; 9] = [b"SQLite format 3\0", b"PK\x03\x04", &[0x28, 0xb5, 0x2f, 0xfd], b"BZh9", &[0xfd, b'7', b'z', b'X', b'Z', 0], b"%PDF-1.7\n", b"{\"version\":1,\"data\":\"", b"TUFHSUM=", &[0x78, 0x9c]];
+                let m = magics[rng.usize(magics.len())];
+                v.extend_from_slice(&m[..m.len().min(n)]);
+                while v.len() < n {
+                    v.push(rng.next_u64() as u8);
                 }
             }
             _ => {
